@@ -657,9 +657,38 @@ func ruleC10_4(c *Ctx, r *Rep) {
 	}
 	// either form of publish notification serves every operation: the notifyPublish helper (which registers the
 	// waking commit hook) or a hand-written waking hook
+	// a waking closure handed to a private helper that runs it only from a commit hook after a successful Commit
+	isDeferredWake := func(in ssa.Instruction) bool {
+		call, ok := in.(*ssa.Call)
+		if !ok || call.Call.StaticCallee() == nil || !c.inModule(call.Call.StaticCallee()) {
+			return false
+		}
+		for _, a := range call.Call.Args {
+			f := funcOf(a)
+			if f == nil || f.Parent() == nil {
+				continue
+			}
+			if len(callsIn(f, true, func(cal *ssa.Function, _ ssa.CallInstruction) bool { return cal.Name() == "WakePublishListeners" })) > 0 && calledOnlyAfterCommit(c, f) {
+				return true
+			}
+		}
+		return false
+	}
 	eitherNotify := func(fn *ssa.Function) func(in ssa.Instruction) bool {
 		h := isWakingHook(fn)
-		return func(in ssa.Instruction) bool { return isNotifyPublish(in) || h(in) }
+		return func(in ssa.Instruction) bool {
+			if isNotifyPublish(in) || h(in) || isDeferredWake(in) {
+				return true
+			}
+			// any other way of handing control to code that wakes publish listeners (C09.3 decides separately that
+			// every wake runs only after a successful commit)
+			if call, ok := in.(*ssa.Call); ok && !isWakeCall(call.Call.StaticCallee()) {
+				if cal := call.Call.StaticCallee(); cal != nil && (fnIs(cal, entPkg, "Tx.OnCommit") || c.inModule(cal) && c.PkgOf(cal) == "actions" && cal != fn && !namedAnchors[c.Key(cal)]) {
+					return leadsToWake(c, call)
+				}
+			}
+			return false
+		}
 	}
 	type spec struct {
 		fn     string
